@@ -237,6 +237,10 @@ Definition wpc_eqb (a b : wpc) : bool :=
 Definition rpc_eqb (a b : rpc) : bool :=
   match a, b with RTry, RTry | RWait, RWait | RDone, RDone => true | _, _ => false end.
 
+(* more than the termination measure of the state (Proofs.measure) plus one *)
+Definition poll_fuel (s : xstate) : nat :=
+  8 * bytes_left s + 4 * length (rest s) + 4 * length (buf (pp s)) + 10.
+
 Fixpoint poll_w_loop (fuel : nat) (c : cfg) (s : xstate) : option xstate :=
   match fuel with
   | O => None
@@ -255,7 +259,7 @@ Definition poll_w (c : cfg) (s : xstate) : option xstate :=
             | WWait => mkX (cur s) (rest s) (pp s) (recvd s) WTry (rst s)
             | _ => s
             end in
-  poll_w_loop (bytes_left s + length (rest s) + 4) c s0.
+  poll_w_loop (poll_fuel s) c s0.
 
 (* The reader's buffer sizes are consumed from a list (the last one repeats). *)
 Fixpoint poll_r_loop (fuel : nat) (s : xstate) (caps : list nat) (dflt : nat)
@@ -279,7 +283,7 @@ Definition poll_r (s : xstate) (caps : list nat) (dflt : nat) : option (xstate *
             | RWait => mkX (cur s) (rest s) (pp s) (recvd s) (wst s) RTry
             | _ => s
             end in
-  poll_r_loop (length (buf (pp s)) + 3) s0 caps dflt.
+  poll_r_loop (poll_fuel s) s0 caps dflt.
 
 (* ------------------------------------------------------------------------ *)
 (* Command substitution: expand_common removes the trailing newlines
